@@ -293,6 +293,16 @@ def observe(inp):
     """runs the real interpreter on the statement; returns the measured facts"""
     s = inp["stmt"]
     stmt = build_stmt(s)
+    if inp.get("grow_loops"):
+        # a history: the sets are asked for once, then the caller extends the loop nest it handed in (Assign keeps the
+        # caller's list), and the statement is executed: the declared sets must describe the statement as it is now
+        stmt.get_read_variables()
+        stmt.get_written_variables()
+        loops = getattr(stmt, "loops", None)
+        if not isinstance(loops, list):
+            raise ValueError("the statement does not keep a list of loops")
+        for i, lo, hi in inp["grow_loops"]:
+            loops.append((i, dec(lo), dec(hi)))
     code = lang.DAGCode.from_phases_list([lang.ExecutionPhase("ph", "ph", [stmt])], "ph")
     interp = NumpyInterpreter(code, functions())
     before = mk_ctx(inp.get("ctx", {}))
@@ -606,6 +616,17 @@ def bounded(payload):
     for s in exhaustive_statements():
         for c in ctxs:
             run({"stmt": s, "ctx": c}, "exhaustive_inputs")
+    # histories: sets asked for, loop nest extended in place, then executed
+    parts["grown_loop_nests"] = 0
+    for lhs_, sub_, rhs_, lp_, grow in (
+            ("a", "i", ["*", "i", "x"], [["i", 0, "n"]], [["l", 0, "<p>k"]]),
+            ("a", "i", ["*", "i", "x"], [["i", 0, 3]], [["l", "j", ["+", "<state>y", 1]]]),
+            ("<state>v", ["%", "i", 4], ["+", "i", "<dt>"], [["i", 0, 2]], [["l", 0, ["[]", "a", 1]]]),
+            ("x", None, 7, [], [["i", 0, "n"]])):
+        for c in ctxs:
+            for cond in CONDS[:3]:
+                run({"stmt": {"t": "Assign", "lhs": lhs_, "sub": sub_, "rhs": rhs_, "loops": lp_, "cond": cond}, "ctx": c,
+                     "grow_loops": grow}, "grown_loop_nests")
     for _ in range(nrand):
         run(random_input(rng), "random_inputs")
 
